@@ -6,6 +6,7 @@ package main
 
 import (
 	"fmt"
+	"math/big"
 	"sort"
 	"strings"
 	"testing"
@@ -326,6 +327,53 @@ func checkC15(c c15Case, ctx *vCtx) *vFailure {
 		}
 		break
 	}
+	// collapse modes only join path segments: the same leaves with the same numbers (when no food is a path prefix of
+	// another) and, always, the same top-level sum
+	{
+		items := c03Items(c.S, "")
+		noPrefix := c03NoPrefix(items)
+		type leafMap = map[string]string
+		var baseLeaves leafMap
+		var baseTop *big.Rat
+		baseRows := 0
+		for mi, mode := range c03Modes {
+			out := vReadBalance(run(nil, append([]string{"bal"}, mode.args...)...), false)
+			leaves := leafMap{}
+			top := new(big.Rat)
+			nrows := 0
+			for i, g := range out.Rows {
+				if g.Depth == 0 {
+					top.Add(top, vNum(g.Val))
+					nrows++
+				}
+				if i+1 >= len(out.Rows) || out.Rows[i+1].Depth <= g.Depth {
+					leaves[g.Path] = g.Val
+				}
+			}
+			if mi == 0 {
+				baseLeaves, baseTop, baseRows = leaves, top, nrows
+				continue
+			}
+			tol := new(big.Rat)
+			if !c.S.Exact {
+				tol = vRatMul(big.NewRat(int64(nrows+baseRows)+1, 2), vCent)
+				tol.Add(tol, vRatMul(big.NewRat(1, 1000000000000), vRatAbs(baseTop)))
+			}
+			if vRatAbs(vRatSub(top, baseTop)).Cmp(tol) > 0 {
+				return vFailf("bal %v: the top-level rows add up to %s, in the default mode to %s", mode.args, top.FloatString(2), baseTop.FloatString(2))
+			}
+			if noPrefix {
+				if len(leaves) != len(baseLeaves) {
+					return vFailf("bal %v shows %d leaf paths, the default mode %d", mode.args, len(leaves), len(baseLeaves))
+				}
+				for p, v := range baseLeaves {
+					if leaves[p] != v {
+						return vFailf("bal %v shows %q for leaf %q, the default mode shows %s", mode.args, leaves[p], p, v)
+					}
+				}
+			}
+		}
+	}
 	// (e) --desc is the reverse order, same rows
 	for _, cmd := range [][]string{{"report", "quantity"}, {"report", "element-total", c.X}} {
 		asc := vReadValName(run(nil, cmd...))
@@ -471,6 +519,6 @@ func init() { vRegister("C15", "c15.random", checkC15) }
 
 func TestVerifC15Random(t *testing.T) {
 	vRapid(t, "C15", "c15.random",
-		"cases as C02 (names up to 36 runes incl. multi-byte, empty days, zero amounts); for each of the 3 register reporters: coloured vs plain (strip-ANSI equality + colour of every amount by sign), --no-color globally vs on the sub-command, same record stream, --shorten rule, default = --no-totals + --totals-only per day; a drawn flag combination coloured vs plain; summary colours; --desc vs ascending for report quantity / element-total; non-trivial = a day with both signs and a name longer than its column",
+		"cases as C02 (names up to 36 runes incl. multi-byte, empty days, zero amounts); for each of the 3 register reporters: coloured vs plain (strip-ANSI equality + colour of every amount by sign), --no-color globally vs on the sub-command, same record stream, --shorten rule, default = --no-totals + --totals-only per day; a drawn flag combination coloured vs plain; summary colours; balance default vs --collapse vs --collapse-last (same leaves and numbers, same top-level sum); --desc vs ascending for report quantity / element-total; non-trivial = a day with both signs and a name longer than its column",
 		vBudget(1600, 32000), genC15, checkC15)
 }
